@@ -76,6 +76,16 @@ Proof.
   - lia.
 Qed.
 
+(* every leaf of every committed tree carries its own position as leaf index (the SCT extension
+   and the position in the tiles agree), whatever crashes, faults and restarts happened *)
+Theorem committed_leaves_indexed evs c ls :
+  In (c, ls) (w_lockhist (run evs init)) ->
+  forall j sl, nth_error ls j = Some sl -> l_idx (sl_leaf sl) = Z.of_nat j.
+Proof.
+  intros Hin. pose proof (Inv_reachable sha evs) as (C & _).
+  destruct (chain_wf sha _ _ _ C Hin) as (_ & _ & H). exact H.
+Qed.
+
 Theorem acks_never_retracted evs more a :
   In a (w_acks (run evs init)) -> In a (w_acks (run (evs ++ more) init)).
 Proof. apply acks_monotone. Qed.
